@@ -2577,6 +2577,38 @@ def operations_model(P, R, which=None):
                                 zip(tt[g], tt[u], tt[v]))
                             check((f, 'ite'), f'order {order}: ite({g}, '
                                   f'{u}, {v})', obj, ext, names, out, want)
+            if 'ite' in which:
+                # the variable of a name, and conjunctions of literals
+                rows = list(itertools.product((False, True), repeat=3))
+                f = P.func('dd.bdd.BDD.var')
+                for x in names:
+                    obj = fresh(base)
+                    out, _ = call(f, obj, [x])
+                    check((f, 'var'), f'order {order}: var({x!r})', obj,
+                          ext, names, out,
+                          tuple(r[names.index(x)] for r in rows))
+                f = P.func('dd.bdd.BDD.cube')
+                for k in range(4):
+                    for xs in itertools.combinations(names, k):
+                        for bits in itertools.product(
+                                (False, True), repeat=k):
+                            d = dict(zip(xs, bits))
+                            want = tuple(all(
+                                r[names.index(x)] == b
+                                for x, b in d.items()) for r in rows)
+                            obj = fresh(base)
+                            out, _ = call(f, obj, [dict(d)])
+                            check((f, 'cube'), f'order {order}: cube({d})',
+                                  obj, ext, names, out, want)
+                    for xs in itertools.permutations(names, k):
+                        # names alone: all of them true
+                        obj = fresh(base)
+                        out, _ = call(f, obj, [list(xs)])
+                        want = tuple(all(r[names.index(x)] for x in xs)
+                                     for r in rows)
+                        check((f, 'cube'), f'order {order}: '
+                              f'cube({list(xs)})', obj, ext, names, out,
+                              want)
             if 'quantify' in which:
                 f = P.func('dd.bdd.BDD.quantify')
                 rows = list(itertools.product((False, True), repeat=3))
@@ -2767,7 +2799,8 @@ def operations_model(P, R, which=None):
         R.undecided('R-OPTAB', 'dd.bdd.BDD (operations)',
                     'operations model', str(e))
         return None
-    rule_of = {'ite': 'R-OPTAB', 'quantify': 'R-ARGS', 'compose': 'R-ROLE',
+    rule_of = {'ite': 'R-OPTAB', 'var': 'R-OPTAB', 'cube': 'R-OPTAB',
+               'quantify': 'R-ARGS', 'compose': 'R-ROLE',
                'cofactor': 'R-ROLE', 'rename': 'R-ROLE', 'image': 'R-REBUILD',
                'preimage': 'R-REBUILD'}
     for (f, op, sub), msg in sorted(problems.items(),
